@@ -741,13 +741,34 @@ func backSlice(v ssa.Value) map[ssa.Value]bool {
 				}
 			}
 		}
-		// loads from Alloc: include stored values
+		// loads from an Alloc (or a field of it): include every value stored into the Alloc or
+		// into any of its fields
 		if u, ok := x.(*ssa.UnOp); ok && u.Op == token.MUL {
-			if a, ok := u.X.(*ssa.Alloc); ok {
+			base := u.X
+			field := -1
+			if fa, ok := base.(*ssa.FieldAddr); ok {
+				base = fa.X
+				field = fa.Field
+			}
+			if a, ok := base.(*ssa.Alloc); ok {
 				if refs := a.Referrers(); refs != nil {
 					for _, r := range *refs {
-						if s, ok := r.(*ssa.Store); ok && s.Addr == a {
-							walk(s.Val)
+						switch y := r.(type) {
+						case *ssa.Store:
+							if y.Addr == a {
+								walk(y.Val)
+							}
+						case *ssa.FieldAddr:
+							if field >= 0 && y.Field != field {
+								continue
+							}
+							if frefs := y.Referrers(); frefs != nil {
+								for _, rr := range *frefs {
+									if s, ok := rr.(*ssa.Store); ok && s.Addr == y {
+										walk(s.Val)
+									}
+								}
+							}
 						}
 					}
 				}
@@ -885,4 +906,51 @@ func constInt64Val(c *types.Const) (int64, bool) {
 		return 0, false
 	}
 	return constant.Int64Val(constant.ToInt(c.Val()))
+}
+
+// controllingConds returns the conditions of the short-circuit chain that immediately controls
+// entry into block b: the Ifs ending b's predecessors, extended backwards through pure
+// condition-evaluation blocks (`a || b`, `a && b`).
+func controllingConds(b *ssa.BasicBlock) []ssa.Value {
+	var out []ssa.Value
+	seen := map[*ssa.BasicBlock]bool{}
+	var walk func(pb *ssa.BasicBlock)
+	walk = func(pb *ssa.BasicBlock) {
+		if seen[pb] || len(pb.Instrs) == 0 {
+			return
+		}
+		seen[pb] = true
+		iff, ok := pb.Instrs[len(pb.Instrs)-1].(*ssa.If)
+		if !ok {
+			return
+		}
+		out = append(out, iff.Cond)
+		pure := true
+		for _, in := range pb.Instrs[:len(pb.Instrs)-1] {
+			switch in.(type) {
+			case *ssa.FieldAddr, *ssa.UnOp, *ssa.BinOp, *ssa.Field, *ssa.IndexAddr, *ssa.DebugRef, *ssa.Phi:
+			default:
+				pure = false
+			}
+		}
+		if pure && len(pb.Preds) == 1 {
+			// short-circuit chain: the predecessor's If shares a successor with this block's If
+			q := pb.Preds[0]
+			share := false
+			for _, s1 := range q.Succs {
+				for _, s2 := range pb.Succs {
+					if s1 == s2 {
+						share = true
+					}
+				}
+			}
+			if share {
+				walk(q)
+			}
+		}
+	}
+	for _, pb := range b.Preds {
+		walk(pb)
+	}
+	return out
 }
